@@ -216,6 +216,27 @@ func vfCleanDir(dir string) {
 	}
 }
 
+// vfPrimeSkeleton creates the directory skeleton with one real disk.New and
+// then enables the fast path for later instances.
+func vfPrimeSkeleton(dir string) {
+	vsched.SetFastSkeleton("", nil)
+	cc, err := New(dir, 1<<20, WithAccessLogger(vlib.SilentLogger()))
+	if err != nil {
+		panic(err)
+	}
+	VfShutdown(cc)
+	VfFastSkeleton(dir)
+}
+
+// vfCleanHot removes the files in the hot sub-directories only; the full
+// walk of the checked step guarantees nothing exists elsewhere (a stray file
+// elsewhere is reported and then removed by that step).
+func vfCleanHot(dir string) {
+	for p := range VfListHot(dir) {
+		_ = os.Remove(filepath.Join(dir, p))
+	}
+}
+
 // vfTruncate cuts the on-disk file of key to n bytes, leaving the index
 // untouched (a corrupt file on disk).
 func (e *vfEnv) truncate(key string, n int64) {
@@ -235,7 +256,7 @@ func (e *vfEnv) legal(key string, data []byte) { e.values[key] = append(e.values
 
 // vfRunOne executes scenario sc under the schedule given by prefix.
 func vfRunOne(t *testing.T, sc *vfScenario, dir string, prefix []int) *vsched.Execution {
-	vfCleanDir(dir)
+	vfCleanHot(dir)
 	e := &vfEnv{t: t, sc: sc, dir: dir, values: map[string][][]byte{}}
 	opts := []Option{WithStorageMode(sc.mode), WithAccessLogger(vlib.SilentLogger())}
 	if sc.hard > 0 {
@@ -316,7 +337,7 @@ func vfRunOne(t *testing.T, sc *vfScenario, dir string, prefix []int) *vsched.Ex
 	for _, p := range VfAccounting(st, 0) {
 		e.violate("C03@final "+vfGeneric(p), "after final probes: %s", p)
 	}
-	for _, p := range VfDirectory(cc, st) {
+	for _, p := range VfDirectoryHot(cc, st) {
 		e.violate("C04@final "+vfGeneric(p), "after final probes: %s", p)
 	}
 	if sc.oracle != nil {
@@ -582,6 +603,13 @@ func TestVfE1(t *testing.T) {
 		return
 	}
 	dir := filepath.Join(os.Getenv("VERIF_SCRATCH"), "cache")
+	var hot []string
+	for _, f := range sc.finals {
+		hot = append(hot, f.hash)
+	}
+	VfSetHot(hot...)
+	vfCleanDir(dir)
+	vfPrimeSkeleton(dir)
 	bound, _ := strconv.Atoi(vlib.Param("BOUND", "2"))
 	shard, nshards := vlib.Shard()
 
@@ -644,6 +672,9 @@ func TestVfE1(t *testing.T) {
 		}
 		if !same {
 			rep.BrokenHarness("violation %q in %s did not reproduce on replay of %v", f.Key, sc.name, f.Choices)
+			continue
+		}
+		if pf := vlib.Param("ORACLE", ""); pf != "" && !strings.HasPrefix(f.Key, pf) {
 			continue
 		}
 		rep.Violate(rep.Property+" "+sc.name+" "+f.Key, f.Desc, map[string]interface{}{
